@@ -57,6 +57,7 @@ def reps_of(g, P, rng):
     lam = G.rand_fe(g, rng)
     out = [("z1", V.proj(g, P[0], P[1], f.one)), ("z-1", V.proj(g, *G.rescale(g, P, f.neg(f.one)))),
            ("zl", V.proj(g, *G.rescale(g, P, lam)))]
+    out.append(("zw", V.proj(g, *G.rescale(g, P, rng.choice(G.special_lambdas(g, rng)[-3 if g == 1 else -5:])))))      # Z a root of unity
     if g == 2:
         # a representative whose Z has a zero component (purely imaginary / purely real)
         out.append(("zi", V.proj(g, *G.rescale(g, P, rng.choice(G.special_lambdas(g, rng)[2:])))))
